@@ -1697,3 +1697,57 @@ def derived_local_is_recomputed(ctx: Ctx, rep: Report, rid: str, specs):
                                       "using the first `%s`" % (x, sorted(deps)[0], sorted(deps)[0], x), func=f.qname)
         if not found:
             rep.ok(rid, "%s|derived-locals" % spec, "-", "every local derived from a loop-updated local is recomputed in the loop", nontrivial=False)
+
+
+def overrides_forward_their_parameters(ctx: Ctx, rep: Report, rid: str):
+    """`super().__init__(...)` in a subclass passes on every parameter of the subclass's __init__ that the base __init__ also takes (same name): an override that
+    accepts `prioritize` / `shuffle` / `tag` and does not hand it to the base silently runs the base with its default."""
+    n = 0
+    for cls in ctx.prog.classes.values() if hasattr(ctx.prog, "classes") else []:
+        f = cls.methods.get("__init__")
+        if f is None or not cls.module.name.startswith("cloudsync") or ".tests" in cls.module.name:
+            continue
+        own = [p for p in f.params()[1:]]
+        for c_ in [x for x in ctx.own_nodes(f) if isinstance(x, ast.Call) and isinstance(x.func, ast.Attribute) and x.func.attr == "__init__"
+                   and isinstance(x.func.value, ast.Call) and isinstance(x.func.value.func, ast.Name) and x.func.value.func.id == "super"]:
+            base = None
+            for b in getattr(cls, "mro", [])[1:]:
+                if "__init__" in b.methods:
+                    base = b.methods["__init__"]
+                    break
+            if base is None:
+                continue
+            bparams = base.params()[1:]
+            passed = {x.id for a in list(c_.args) + [k.value for k in c_.keywords] for x in ast.walk(a) if isinstance(x, ast.Name)}
+            star = any(isinstance(a, ast.Starred) for a in c_.args) or any(k.arg is None for k in c_.keywords)
+            for p in own:
+                if p in bparams and not star:
+                    n += 1
+                    rep.check(rid, "%s.__init__|forwards %s" % (cls.name, p), ctx.line(f, c_), p in passed, "`%s` is handed to %s.__init__" % (p, base.cls.name if base.cls else "base"),
+                              "%s.__init__ accepts `%s` but does not pass it to %s.__init__: the base runs with its default (e.g. every entry gets priority 0)"
+                              % (cls.name, p, base.cls.name if base.cls else "the base"), func=f.qname)
+    if n < 3:
+        raise AnalysisError("only %d forwarded constructor parameters found" % n)
+
+
+def parent_search_climbs(ctx: Ctx, rep: Report, rid: str):
+    """_get_parent_conflict walks every ancestor: inside its loop it moves to the parent (`path = parent`) and recomputes the parent of THAT (`parent = dirname(path)`),
+    in this order - computing the next parent from the old one first and then aliasing both stops the walk after one level."""
+    gp = ctx.prog.func("SyncManager._get_parent_conflict")
+    loops = [n for n in ctx.own_nodes(gp) if isinstance(n, ast.While)]
+    ok = False
+    if loops:
+        lp = loops[0]
+        names = {x.id for x in ast.walk(lp.test) if isinstance(x, ast.Name)}
+        seq = [n_ for n_ in lp.body if isinstance(n_, ast.Assign) and isinstance(n_.targets[0], ast.Name)] + \
+              [n_ for st in lp.body if not isinstance(st, ast.Assign) for n_ in ast.walk(st) if isinstance(n_, ast.Assign) and isinstance(n_.targets[0], ast.Name)]
+        asg = {n_.targets[0].id: n_.value for n_ in ast.walk(lp) if isinstance(n_, ast.Assign) and isinstance(n_.targets[0], ast.Name)}
+        climbing = [k for k, v in asg.items() if isinstance(v, ast.Call) and isinstance(v.func, ast.Attribute) and v.func.attr == "dirname"]
+        moving = [k for k, v in asg.items() if isinstance(v, ast.Name) and v.id in climbing]
+        ok = bool(climbing) and bool(moving) and set(climbing + moving) >= names and any(pat.match("$P.dirname(%s)" % mv, asg[c_]) is not None for c_ in climbing for mv in moving)
+        if ok:
+            # order: the move (`path = parent`) stands before the climb (`parent = dirname(path)`)
+            order = [n_.targets[0].id for n_ in seq if n_.targets[0].id in climbing + moving]
+            ok = bool(order) and order.index(moving[0]) < order.index(climbing[0]) if (moving[0] in order and climbing[0] in order) else False
+    rep.check(rid, "_get_parent_conflict|climb", gp, ok, "path := parent; parent := dirname(path) inside the loop",
+              "the ancestor walk of _get_parent_conflict no longer climbs (only the immediate parent is examined): a changed grand-parent is synced after its descendants")
